@@ -509,6 +509,32 @@ func Describe$N(v interface{}) string {
 	}
 	return tagfn$Nq("?")
 }`, `Describe$N("x") + Describe$N(7) + Describe$N(nil)`},
+	{"renamed-local-type-used-as-embedded-field", `type cfg$Nq struct{ name string }
+
+func (cfg$Nq) Who() string { return "package-level" }
+
+type whoer$N interface{ Who() string }
+
+func RunEmb$N() string {
+	type cfg$Nq struct{ n int }
+	type wrapper struct {
+		cfg$Nq
+		extra int
+	}
+	type pwrapper struct {
+		*cfg$Nq
+		extra int
+	}
+	w := wrapper{cfg$Nq: cfg$Nq{n: 7}, extra: 1}
+	p := pwrapper{&w.cfg$Nq, 2}
+	p.cfg$Nq.n++
+	out := {FMT}Sprint(w.cfg$Nq.n, w.n, p.n, p.extra)
+	var i interface{} = w
+	if x, ok := i.(whoer$N); ok {
+		return out + " has Who: " + x.Who()
+	}
+	return out + " no Who"
+}`, `RunEmb$N() + cfg$Nq{}.Who()`},
 }
 
 // c15NeedsStrAlias: snippets that declare a local named "strings" and use package strings inside
